@@ -311,6 +311,9 @@ func TestVerifC06(t *testing.T) {
 	}
 	idxQuick := []uint32{1, 2, 0x7fffffff, 0x80000000, 0xffffffff}
 	idxThorough := []uint32{1, 2, 3, 127, 128, 255, 256, 0xffff, 0x10000, 0x7fffffff, 0x80000000, 0xfffffffe, 0xffffffff, 0xdeadbeef}
+	for sh := uint(4); sh < 32; sh += 2 { // thorough: every second power of two and its predecessor
+		idxThorough = append(idxThorough, 1<<sh+1, 1<<sh-2)
+	}
 	idx := mc.Pick(c, idxQuick, idxThorough)
 
 	type combo struct {
@@ -389,7 +392,12 @@ func TestVerifC06(t *testing.T) {
 	gen(nil, 0, 0)
 	crossCfgs := [][2]c06Cfg{{cfgs[1], cfgs[1]}, {cfgs[2], cfgs[3]}}
 	if c.Thorough() {
-		crossCfgs = append(crossCfgs, [2]c06Cfg{cfgs[0], cfgs[1]}, [2]c06Cfg{cfgs[3], cfgs[2]})
+		crossCfgs = nil
+		for _, ic := range cfgs {
+			for _, rc := range cfgs {
+				crossCfgs = append(crossCfgs, [2]c06Cfg{ic, rc})
+			}
+		}
 	}
 	type job struct {
 		w     *c06World
